@@ -24,15 +24,26 @@ META = {
                   'from_string, and what setParameterFromString sends is strict JSON of the kind the node\'s type prescribes which '
                   'the node imports to a value equal to the one the text was read as — also when a re-read float left the limits), '
                   'client_cache_string_write (the whole path: node export -> updateValue -> cache entry holding exactly v -> '
-                  'str -> setParameterFromString -> node import; under the grid law at the scaled limits, LimitsOnGrid). '
+                  'str -> setParameterFromString -> node import; under the grid law at the scaled limits, LimitsOnGrid), '
+                  'client_command_roundtrip (execCommand: the argument the client exports with the rebuilt argument type is strict '
+                  'JSON of the kind the node\'s type prescribes and is imported by the node as the very value; the result of a '
+                  'command answering its argument comes back to the caller as the very value). The base64 law is proved for the '
+                  'model\'s encoder / strict decoder (base64_roundtrip), it is no hypothesis of the theorems any more. '
                   'The models of export_value / format_value / to_string / from_string / CacheItem / updateValue / setParameter / '
                   'setParameterFromString are tied to frappy/datatypes.py and frappy/client/__init__.py by a correspondence run on '
                   'the real classes (json.dumps with the settings of encode_msg_frame, json.loads, a SecopClient whose tables are '
-                  'built by the real _init_descriptive_data (get_datatype) and whose request() records the line), and the Lean '
-                  'monitors (kindOKB, strictB, pyEq, sameButFloatsB, textEq) judge every output of the implementation.',
+                  'built by the real _init_descriptive_data (get_datatype) and whose request() records the line and, for a do '
+                  'request, plays the node\'s part of a command answering its argument), and the Lean monitors (kindOKB, strictB, '
+                  'pyEq, sameButFloatsB, textEq) judge every output of the implementation. Values include maximal containers, long '
+                  'strings / blobs / enum names (text forms and JSON lines up to > 100 000 characters) and string contents from every '
+                  'class of Unicode characters a text layer may treat specially (normalization forms, case mappings, separators, '
+                  'format / private-use / unassigned code points, combining sequences), also as struct member names.',
     'level_note': 'Trusted: Lean kernel + axioms propext/Classical.choice/Quot.sound; the laws of WireLaws for binary64 (proved for the '
-                  'exact carrier Rat); one law per library leaf (TextLib.Lawful, B64Law, JsonText.loads_dumps), each tested on every '
-                  'leaf drawn and all satisfied by a concrete library over Rat (Lemmas/TextLibRat.lean); the float format laws speak '
+                  'exact carrier Rat); one law per library leaf (TextLib.Lawful, JsonText.loads_dumps), each tested on every '
+                  'leaf drawn (the wire law on the real encode_msg_frame / decode_msg pair, value by value: types, float bits, code '
+                  'points, member order); TextLib.Lawful is satisfied by a concrete library over Rat (Lemmas/TextLibRat.lean), so '
+                  'is JsonText.loads_dumps (exJsonText, Lemmas/JsonTextRat.lean: a prefix-free code and its inverse); that the model\'s Base64.encode / decode? agree with CPython\'s base64 '
+                  'is tested per blob, their round trip is proved; the float format laws speak '
                   'of the library and float arithmetic only (FloatRange.__call__ / ScaledInteger.__call__ are proved from the model); '
                   'the printing/parsing of brackets and commas (ast.parse) is not modelled — texts are compared as syntax trees.',
     'trusted': [
@@ -45,8 +56,9 @@ META = {
         "round(literal_eval(fmtstr % x) / scale) * scale, and y is again reproduced by the grid (fmtScaled); the instances where "
         "this fails ('%.1f' % -0.04 == '-0.0' reads back as 0.0 which prints '0.0'; scaled leaves with a grid finer than the double "
         "spacing) are decided per case in Lean (fmtLawB) and counted, not judged; ast.literal_eval(repr(s)) == s for str, bytes, "
-        'int, bool; b64decode(b64encode(b), validate=True) == b (B64Law); json.loads(json.dumps(j)) == j for strict j '
-        '(JsonText.loads_dumps)',
+        'int, bool; json.loads(json.dumps(j)) == j for strict j through encode_msg_frame / decode_msg (JsonText.loads_dumps: '
+        'tested on every line of every case, incl. strings that are not stable under the Unicode normalization forms); the '
+        'model\'s base64 functions are CPython\'s (tested per blob leaf; their round trip is proved, Lemmas/Base64RT.lean)',
         'ast.parse as the reader of bracket structure: the observation compares syntax trees, (x) vs (x,) is decided by ast',
         'FrappyDrive/C02.lean: the tagged-token TextLib instance and the fmt read-back table sent by the harness (a float text is '
         'identified with the float it reads back as)',
@@ -56,8 +68,10 @@ META = {
         'frappy.lib.enum.Enum (dict keyed by names and values)',
         'frappy.properties.HasProperties.exportProperties / get_datatype beyond what values can see (clientOf; the full '
         'description round trip is C03)',
-        'SecopClient queueing/threads: request() is replaced by a recorder that calls the real encode_msg_frame; the error '
-        'branch of CacheItem.__str__ (readerror) is modelled but not exercised',
+        'SecopClient queueing/threads: request() is replaced by a recorder that calls the real encode_msg_frame (and '
+        'decode_msg, import_value, export_value for the node\'s part of a do request); Command.do / Dispatcher._execute_command '
+        'themselves are not run',
+        'CacheItem.formatted() (the display form with unit, not meant to be read back) is not observed',
     ],
     'assumptions': ['generalConfig.lazy_number_validation is False (default)',
                     'values are canonical (what validation returns): no -0.0 leaf for the text clauses',
